@@ -93,6 +93,8 @@ class FieldArrayModel(FieldCompositeModel):
         FieldCompositeModel.post_randomize(self, visited)
         self.sum_expr = None
         self.sum_expr_btor = None
+        self.product_expr = None
+        self.product_expr_btor = None
         
         if self.is_rand_sz:
             # The array was grown to its maximum size for solving. Only the 
